@@ -563,6 +563,26 @@ func genAuthScenario(r *Rng, ver string) *AuthScenario {
 				signedJSON, _ = json.Marshal(m1)
 				valid = false
 			}
+			if r.Chance(40) {
+				// further signatures under the identity server's name that do not verify (a rotated key, a junk entry, another
+				// algorithm): the block is signed when SOME ed25519 signature verifies under SOME listed key, whichever entry a
+				// map iteration yields first (seeded change C09-r5m1)
+				var m1 map[string]interface{}
+				if json.Unmarshal(signedJSON, &m1) == nil {
+					if sigs, ok := m1["signatures"].(map[string]interface{}); ok {
+						if mine, ok := sigs["idserver"].(map[string]interface{}); ok {
+							junk := base64.RawStdEncoding.EncodeToString(make([]byte, 64))
+							for _, kid := range [][]string{{"ed25519:1"}, {"ed25519:00", "ed25519:z"}, {"ed25519:1", "rsa:1"}, {"ed25519:", "ed25519:0a", "ed25519:9"}}[r.Intn(4)] {
+								mine[kid] = junk
+							}
+							if r.Chance(15) {
+								mine["ed25519:short"] = "AAAA"
+							}
+							signedJSON, _ = json.Marshal(m1)
+						}
+					}
+				}
+			}
 			c[r.caseVariant("third_party_invite")] = map[string]interface{}{"display_name": "x", "signed": json.RawMessage(signedJSON)}
 			// the m.room.third_party_invite event
 			keys := []map[string]interface{}{}
